@@ -44,6 +44,12 @@ var (
 )
 
 // argSets returns the argument lists to try for a method type (nil: cannot be synthesised).
+// vendorDec: a caller's decoder for the vendor-specific information option
+type vendorDec struct{ b []byte }
+
+func (v *vendorDec) FromBytes(b []byte) error { v.b = append([]byte{}, b...); return nil }
+func (v *vendorDec) String() string           { return fmt.Sprintf("VENDOR-DECODED(%x)", v.b) }
+
 func argSets(mt reflect.Type) [][]reflect.Value {
 	if mt.NumIn() == 0 {
 		return [][]reflect.Value{{}}
@@ -68,7 +74,9 @@ func argSets(mt reflect.Type) [][]reflect.Value {
 		}
 		return s
 	case in == tDecoder:
-		return [][]reflect.Value{{reflect.Zero(tDecoder)}}
+		// no decoder, and a decoder of the caller's (one per enumerated value; it keeps a copy of the octets it was last given)
+		var d dhcpv4.OptionDecoder = &vendorDec{}
+		return [][]reflect.Value{{reflect.Zero(tDecoder)}, {reflect.ValueOf(&d).Elem()}}
 	case in == tDUID:
 		ll := dhcpv6.DUID(&dhcpv6.DUIDLL{HWType: 1, LinkLayerAddr: net.HardwareAddr{1, 2, 3, 4, 5, 6}})
 		op := dhcpv6.DUID(&dhcpv6.DUIDOpaque{Type: 9, Data: []byte{1}})
